@@ -45,6 +45,11 @@ CLAIMED = {
   note="Trusted as C17, plus: the CBOR decoder is a section variable (validated by hostile-CBOR inputs under a memory limit, not proved); handlers per Model/HubSeq.v.",
   technique="Coq proof (total function on the whole input; compositional in-step lemma) + checked correspondence",
   ref="5.19"),
+ "C13": dict(
+  text="Coq theorems for every hub tree and local tree (distinct non-hidden paths): hub-sync alone exits 0, lands every local file at its path with identical bytes, leaves other hub paths untouched, sent+unchanged = number of files, and an immediate second run issues no Put; under a stale listing every request it issues is a hash- and length-verified CAS Put carrying the listed digest, so by C03 each either commits or leaves the live file untouched with its bytes at the conflict name. Tie: real `copia hub-sync` histories by 1-3 clients (local and host:root targets through an ssh stand-in), a quarter with the listing forced stale by gating the server; exit status, counters and hub tree compared with the extracted model plus independent oracles.",
+  note="Trusted as C03, plus: ssh replaced by a stand-in, process/pipe plumbing not modelled; local tree must have no entry under `.copia/` and no file/directory clash with the hub (explicit hypotheses).",
+  technique="Coq proof (induction over the local file list through the CAS specification) + checked correspondence incl. forced stale listings",
+  ref="5.20"),
 }
 
 NA_REASON = "check not built yet in this session; see DESIGN.md section 5 for the planned model and theorems"
